@@ -218,7 +218,9 @@ def main():
         'engines': ENGINES,
         'checks': checks,
         'notes': 'Exit codes: 0 held, 1 VIOLATION (with replay file), 2 HARNESS-ERROR. Genuine defects found and repaired '
-                 'are listed in known_findings.txt (fixed: lines) with reproducers under findings/.',
+                 'are listed in known_findings.txt (fixed: lines) with reproducers under findings/; one open: entry (C05, a '
+                 'nested condition first awaited after an enclosing condition was processed; pinned by a test of the '
+                 'suite, DESIGN.md 10.3 K1) makes the C05 check print a KNOWN-FINDING line and exit 0.',
         'not_applicable': na,
     }
     json.dump(m, open(os.path.join(VERIF, 'MANIFEST.json'), 'w'), indent=1)
